@@ -4,15 +4,11 @@
   `some _` comes back as `some _`).
 -/
 import Masscanned.Model.Dispatch
+import Masscanned.Proofs.Texts.Reply
 namespace Masscanned
 
-theorem httpReplyBytes_ne_nil (env : Env) : httpReplyBytes env ≠ [] := by
-  unfold httpReplyBytes
-  have h : "HTTP/1.1 401 Unauthorized\nServer: nginx/1.14.2\nDate: ".toUTF8.toList ≠ [] := by
-    decide +kernel
-  intro hc
-  simp only [List.append_eq_nil_iff] at hc
-  exact h hc.1.1.1.1.1
+/-- from the status-line fact of Proofs/Texts/Facts (the response text is generated) -/
+theorem httpReplyBytes_ne_nil (env : Env) : httpReplyBytes env ≠ [] := Texts.httpReply_ne_nil env
 
 theorem httpRepl_ne_nil {env : Env} {s s' : HttpSt} {d r : Bytes}
     (h : httpRepl env s d = .ok (s', some r)) : r ≠ [] := by
